@@ -1,5 +1,6 @@
 (* Generated-obligation file for C18: the content-type tables read from mapping_service/utils.py on this run. *)
 From Curies.model Require Import Str Optimize Mapping.
+From Curies.model Require Defaults.
 From Curies.gen Require Gen.
 Theorem GenObl_C18_default : Gen.default_content_type = Mapping.default_content_type.
 Proof. reflexivity. Qed.
@@ -15,3 +16,7 @@ Theorem GenObl_C18_optimize : Gen.opt_join_name = Optimize.join_name /\ Gen.opt_
   Gen.opt_operand_keys = (Optimize.k_p1, Optimize.k_p2).
 Proof. repeat split; reflexivity. Qed.
 Print Assumptions GenObl_C18_optimize.
+(* the documented defaults of the signatures C18 speaks about are the defaults in the working tree *)
+Theorem GenObl_C18_defaults : Defaults.defaults_hold Defaults.defaults_C18 Gen.defaults_C18 = true.
+Proof. vm_compute. reflexivity. Qed.
+Print Assumptions GenObl_C18_defaults.
